@@ -1,19 +1,31 @@
 """C14 - sparse images round-trip and overlap counting is exact.
 
-specs: SparseCoo.tla      mask_to_coo, tosparse_*, sparse_is_sorted, from_data_mask/_cut, sparse_frame.to_dense /
-                          .sort / .sort_by / .reorder / .mask / .threshold
+specs: SparseCoo.tla      mask_to_coo, tosparse_*, sparse_is_sorted, from_data_mask/_cut, sparse_frame.to_dense
+                          (by name, by default, with the array itself; into np.zeros or a caller's array) /
+                          .sort / .sort_by / .reorder / .mask / .threshold(t) / .threshold(t, name)
        SparseOverlaps.tla sparse_overlaps, compress_duplicates, coverlaps, overlaps_linear, overlaps_matrix,
-                          overlaps()
+                          overlaps(); program "hist": ONE overlaps_linear / overlaps_matrix object called several
+                          times with different frame pairs, work arrays kept (what pairrow / pairscans do)
        TraceSparse.tla    the property's definitions evaluated by TLC on logged inputs/outputs of larger cases
-Mode A: every case TLC emits (exhaustive small scope) is replayed through the raw kernels and every Python route
-        (harness/c14_replay.py); the real arrays must equal the model's arrays element for element, untouched
-        cells included.  The raw kernels are also replayed on the ASan/UBSan build.
+Mode A: every case TLC emits (exhaustive small scope; the 6-call histories are a seeded sample) is replayed
+        through the raw kernels and every Python route (harness/c14_replay.py); the real arrays must equal the
+        model's arrays element for element, untouched cells included.  A history is replayed on one pair of
+        objects, each call judged by its own expectation, and handed to sinograms.properties.pairrow (chained
+        histories: a scan whose frames are stored out of omega order, with an empty frame) and pairscans (two
+        scans; modulo-360 omegas, a frame without neighbour, empty frames).  The raw kernels are also replayed
+        on the ASan/UBSan build.
+        Harness-only families (the model is covariant): mask and pixel dtypes, value variants = order-preserving
+        maps of the grey levels and cuts (top of each dtype; negative float images / cuts; cuts that are no
+        binary32 numbers, expectation data > float32(cut) as the kernels' `real :: cut` sees it; fractional
+        cuts for uint32), thread counts, `out` arrays full of a poison value, call forms.
 Mode C: seeded larger cases (uint16/uint32/float32, up to 65535 columns, label ids equal to the histogram
-        length, frames ending together) are run through the real code, logged, and judged by TLC against the
+        length, frames ending together, selections up to the FULL image on 64x64 / 5x300 / 65534x1, thread
+        counts 1/2/4/16, float cuts below zero and off the 1/4 grid, histories of 6-8 calls on one pair of
+        objects and through pairrow) are run through the real code, logged, and judged by TLC against the
         definitions in TraceSparse.tla.
-Design-level counterexamples: the `_asis` configurations model the tree's `self.reorder(self, order)` and the
-        missing `npx == 0` test in overlaps(); TLC finds the violated invariant and the counterexample is
-        replayed on the real code.
+Design-level counterexamples: the `_asis` configurations model the tree's `self.reorder(self, order)`, the
+        missing `npx == 0` test in overlaps() and `data in self.pixels` with an array argument in to_dense();
+        TLC finds the violated invariant and the counterexample is replayed on the real code.
 """
 import os, sys, json, subprocess, time
 import numpy as np
@@ -24,17 +36,20 @@ import c14_big
 PROP = "C14"
 F_SORT = "C14-sort-typeerror"
 F_OVL = "C14-overlaps-disjoint-valueerror"
+F_TD = "C14-to-dense-array-typeerror"
 
 COO_ACTIONS = ["M2C_Check", "M2C_CountRow", "M2C_CountSet", "M2C_CountClear", "M2C_CountRowEnd", "M2C_Cumsum",
                "M2C_Mismatch", "M2C_Match", "M2C_FillRow", "M2C_FillRowEmpty", "M2C_FillSet", "M2C_FillClear",
                "M2C_FillRowEnd", "M2C_Return0", "FromDataMask", "TS_Keep", "TS_Masked", "TS_Below", "TS_Return",
                "FromDataCut", "IS_Start", "IS_RowBack", "IS_ColBack", "IS_Dup", "IS_Fine", "IS_Return",
                "Sort_Order", "Reorder_Row", "Reorder_Col", "Reorder_Px", "Reorder_Done", "Th_Compare", "Th_Mask",
-               "Th_Empty", "TD_Start", "TD_Add", "TD_Done"]
+               "Th_Empty", "TD_Start", "TD_Add", "TD_Done", "TD2_Start", "TD2_Add", "TD2_Done"]
 PIPE_ACTIONS = ["Lin_Check", "SO_RowAhead1", "SO_RowAhead2", "SO_ColAhead1", "SO_ColAhead2", "SO_Hit",
                 "SO_EndMerge", "SO_Fill1", "SO_Fill1End", "SO_Fill2", "SO_Return", "Lin_NoOverlap", "Lin_Gather",
                 "Lin_Result", "Mat_Check", "COV_Zero", "COV_ZeroEnd", "COV_Hit", "COV_Ahead1", "COV_Ahead2",
                 "COV_MergeEnd", "COV_ScanHit", "COV_ScanZero", "Mat_Result"]
+HIST_ACTIONS = ["Lin_Check", "SO_Hit", "Lin_NoOverlap", "Lin_Gather", "Lin_Result", "Mat_Check", "COV_Hit",
+                "Mat_Result", "Hist_Next"]
 CD_ACTIONS = ["CD_Start", "CD_Max", "CD_MaxEnd", "CD_Zero", "CD_ZeroEnd", "CD_Hist1", "CD_Hist2", "CD_HistEnd",
               "CD_Cumsum", "CD_CumsumEnd", "CD_Scatter1", "CD_Scatter1End", "CD_Scatter2", "CD_RunInit",
               "CD_RunSame", "CD_RunNew", "CD_Return"]
@@ -46,6 +61,10 @@ RUNS = {
         ("SparseOverlaps q22 (2x2, 2 labels; cd len<=3)", "SparseOverlaps", "SparseOverlaps_q22.cfg",
          PIPE_ACTIONS + CD_ACTIONS + ["Cd_Done"], 300),
         ("SparseOverlaps q13 (1x3, 3 labels, nlabel slack)", "SparseOverlaps", "SparseOverlaps_q13.cfg", PIPE_ACTIONS, 300),
+        ("SparseOverlaps qh (histories: every 2 calls of one object, 1x2, 2 labels, chained and free)", "SparseOverlaps",
+         "SparseOverlaps_qh.cfg", HIST_ACTIONS, 300),
+        ("SparseOverlaps hsim (histories: 6 calls of one object, 1x3 / 2x2, 3 labels, nlabel slack; sampled)",
+         "SparseOverlaps", "SparseOverlaps_hsim.cfg", HIST_ACTIONS, 300, "seeded"),
     ],
     "thorough": [
         ("SparseCoo t (2x3,3x3,1x5,5x1 masks; 2x3 cuts; 2x3 sorts, thresholds)", "SparseCoo", "SparseCoo_t.cfg", COO_ACTIONS, 1500),
@@ -58,6 +77,12 @@ RUNS = {
          CD_ACTIONS + ["Cd_Done"], 1500),
         ("SparseOverlaps tcd6 (cd: len<=6, 2 labels, nt slack)", "SparseOverlaps", "SparseOverlaps_tcd6.cfg",
          CD_ACTIONS + ["Cd_Done"], 900),
+        ("SparseOverlaps th2 (histories: every 2 calls, 1x2, 2 labels, nlabel slack)", "SparseOverlaps",
+         "SparseOverlaps_th2.cfg", HIST_ACTIONS, 900),
+        ("SparseOverlaps th3 (histories: every 3 calls, 1x2, 2 labels)", "SparseOverlaps",
+         "SparseOverlaps_th3.cfg", HIST_ACTIONS, 1500),
+        ("SparseOverlaps hsim_t (histories: 6 calls of one object, 1x3 / 2x2, 3 labels, nlabel slack; sampled)",
+         "SparseOverlaps", "SparseOverlaps_hsim_t.cfg", HIST_ACTIONS, 900, "seeded"),
     ],
 }
 
@@ -69,9 +94,11 @@ def workers():
         return 16
 
 
-def tlc_cases(chk, name, module, cfg, cover, timeout, coverage):
+def tlc_cases(chk, name, module, cfg, cover, timeout, coverage, seeded=False):
     cfgpath = os.path.join(common.SPECS, cfg)
-    res = common.run_tlc(module, cfgpath, workers=workers(), coverage=coverage, timeout=timeout)
+    # seeded: the configuration samples with TLC's RandomSubset; VERIF_SEED selects the sample
+    extra = ("-seed", str(common.seed() + 14)) if seeded else ()
+    res = common.run_tlc(module, cfgpath, workers=workers(), coverage=coverage, timeout=timeout, extra_args=extra)
     chk.add_tlc(name, res)
     if res.violated:
         # the repaired model states the property; if TLC refutes it the *model* is inconsistent (the code
@@ -80,7 +107,7 @@ def tlc_cases(chk, name, module, cfg, cover, timeout, coverage):
             name, res.violated, res.stdout[-2500:]))
     cases, bad = parse_cases(res)
     if bad:
-        res = common.run_tlc(module, cfgpath, workers=1, coverage=False, timeout=timeout * 4)
+        res = common.run_tlc(module, cfgpath, workers=1, coverage=False, timeout=timeout * 4, extra_args=extra)
         if res.error or res.violated:
             raise common.MachineryError("TLC rerun %s failed: %s" % (name, res.error or res.violated))
         cases, bad = parse_cases(res)
@@ -117,6 +144,8 @@ def is_disjoint(case):
     """the two frames of an overlap case share no pixel"""
     if case.get("prog") == "pipe":
         return case["so"]["npx"] == 0
+    if case.get("prog") == "big" and case.get("kind") == "hist":
+        return False
     if case.get("prog") == "big" and case.get("kind") == "ovl":
         a = set(zip(case["f1"]["row"], case["f1"]["col"]))
         return not (a & set(zip(case["f2"]["row"], case["f2"]["col"])))
@@ -136,8 +165,11 @@ class Failures(object):
     def add(self, case, fails, tag=""):
         for route, kind, msg in fails:
             s = self.sig(case.get("prog", "?"), route, kind)
-            g = self.groups.setdefault(s, {"n": 0, "first": None, "msg": None, "all_disjoint": True, "tag": tag})
+            g = self.groups.setdefault(s, {"n": 0, "first": None, "msg": None, "all_disjoint": True, "tag": tag,
+                                           "all_unhashable": True})
             g["n"] += 1
+            if "unhashable type" not in msg:
+                g["all_unhashable"] = False
             if g["first"] is None:
                 g["first"], g["msg"] = case, msg
             if not is_disjoint(case):
@@ -191,6 +223,10 @@ def child_replay(chk, lines, tag, flavour, F, light):
         return {"n": last, "problems": [], "events": [], "crashed": True}
     for pr in out.get("problems", []):
         F.add(lines[pr["idx"]], [tuple(x) for x in pr["problems"]], tag="sanitizer build" if flavour == "asan" else "")
+    # vacuity: calls into the implementation per route family, summed over the children of this run
+    tot = chk.notes.setdefault("calls_per_route_family", {})
+    for fam, n in out.get("counts", {}).items():
+        tot[fam] = tot.get(fam, 0) + n
     return out
 
 
@@ -254,6 +290,25 @@ def asis_runs(chk, mods):
     except ValueError as e:
         info["overlaps"] = {"tlc": "OvlTotal violated", "counterexample": case, "real_code": "ValueError: %s" % e,
                             "confirmed": True}
+    # --- to_dense(<array>): `data in self.pixels` hashes the array
+    res = common.run_tlc("SparseCoo", os.path.join(common.SPECS, "SparseCoo_asis_td.cfg"), workers=1, timeout=300)
+    chk.add_tlc("SparseCoo as-is (TDFIXED=FALSE): to_dense(<array>) as in the tree", res)
+    if "DenseTotal" not in res.violated:
+        raise common.MachineryError("as-is model of to_dense(array) does not violate DenseTotal: %s" % res.stdout[-1500:])
+    inp = common.parse_tla(res.trace[0]["vars"]["inp"])
+    case = {"shape": [inp["ns"], inp["nf"]], "msk": _fn2list(inp["msk"])}
+    msk = np.array(case["msk"], np.int8).reshape(case["shape"])
+    data = (np.arange(msk.size, dtype=np.float32) + 11).reshape(case["shape"])
+    fr = mods.sf.from_data_mask(msk, data, {})
+    try:
+        d = fr.to_dense(fr.pixels["intensity"])
+        good = np.array_equal(np.asarray(d), np.where(msk != 0, data, 0))
+        info["to_dense_array"] = {"tlc": "DenseTotal violated", "counterexample": case,
+                                  "real_code": "returns%s (site repaired)" % ("" if good else " ANOTHER IMAGE")}
+    except TypeError as e:
+        byname = np.array_equal(np.asarray(fr.to_dense("intensity")), np.where(msk != 0, data, 0))
+        info["to_dense_array"] = {"tlc": "DenseTotal violated", "counterexample": case, "real_code": "TypeError: %s" % e,
+                                  "confirmed": bool("unhashable" in str(e) and byname)}
     chk.notes["design_level_counterexamples"] = info
     return info
 
@@ -272,6 +327,12 @@ def report(chk, F, asis):
             e = chk.finding(F_SORT)
             if e is not None and asis.get("sort", {}).get("confirmed") and not have_reorder_fail:
                 chk.known_finding(F_SORT, "sparse_frame.sort()/sort_by() raise TypeError (self.reorder(self, order))")
+                continue
+        if route == c14_replay.TD_ARRAY and kind == "TypeError" and g["all_unhashable"]:
+            # the array form of `data` only; every other way of choosing `data` is judged in its own group
+            e = chk.finding(F_TD)
+            if e is not None and asis.get("to_dense_array", {}).get("confirmed"):
+                chk.known_finding(F_TD, "sparse_frame.to_dense(<array>) raises TypeError (`data in self.pixels` hashes the array)")
                 continue
         if route == "sparseframe.overlaps" and kind == "ValueError" and g["all_disjoint"]:
             e = chk.finding(F_OVL)
@@ -304,9 +365,10 @@ def _run(chk, tier, replay_path, mods):
     coverage = (tier == "thorough")
     allcases = []
     crashed = False
-    for k, (name, module, cfg, cover, timeout) in enumerate(RUNS[tier]):
+    for k, run in enumerate(RUNS[tier]):
+        name, module, cfg, cover, timeout = run[:5]
         t0 = time.time()
-        cases = tlc_cases(chk, name, module, cfg, cover, timeout, coverage)
+        cases = tlc_cases(chk, name, module, cfg, cover, timeout, coverage, seeded=len(run) > 5)
         t1 = time.time()
         out = child_replay(chk, cases, "run%d" % k, "normal", F, light=False)
         crashed = crashed or out.get("crashed", False)
@@ -316,7 +378,7 @@ def _run(chk, tier, replay_path, mods):
                                                          "replay_s": round(time.time() - t1, 1)}
         allcases.append(cases)
     if coverage:
-        for a in COO_ACTIONS + PIPE_ACTIONS + CD_ACTIONS + ["Cd_Done"]:
+        for a in COO_ACTIONS + PIPE_ACTIONS + CD_ACTIONS + ["Cd_Done", "Hist_Next"]:
             if chk.notes["action_coverage"].get(a, 0) == 0:
                 raise common.MachineryError("vacuity: action %s never taken in any TLC run of this tier" % a)
     asis = asis_runs(chk, mods)
@@ -338,6 +400,8 @@ def _run(chk, tier, replay_path, mods):
         sel += [cases[i] for i in idx]
     nrec = 40 if tier == "quick" else len(recipes)
     sel += recipes[:nrec // 2] + [r for r in recipes if r["kind"] == "ovl"][:nrec // 2]
+    sel += [r for r in recipes if r["kind"] == "hist"][:2 if tier == "quick" else None]
+    sel += [r for r in recipes if r.get("full")][:6 if tier == "quick" else None]
     out = child_replay(chk, sel, "asan", "asan", F, light=True)
     chk.notes["asan_cases"] = out["n"]
     chk.notes["asan_s"] = round(time.time() - t0, 1)
@@ -347,11 +411,17 @@ def _run(chk, tier, replay_path, mods):
     chk.rule = ("cases = every terminal state of the TLC runs (all masks / images / coordinate sequences / "
                 "permutations / labelled frame pairs / label-pair sequences of the configured scope), each replayed "
                 "through every route; non-trivial = frame with >= 2 pixels, cut keeps a proper subset, permutation "
-                "not already sorted, duplicates present, partial overlap; plus seeded larger cases judged by TLC")
+                "not already sorted, duplicates present, partial overlap, history with >= 2 different pairs; plus "
+                "seeded larger cases judged by TLC")
     chk.exhaustive = not crashed
     chk.assumptions = [
-        "label arrays are int32 and index arrays uint16 (what SparseScan produces); cuts are non-negative and "
-        "representable in the image dtype; masks hold non-negative values",
+        "label arrays are int32 and index arrays uint16 (what SparseScan produces); cuts for uint16 / uint32 images "
+        "are non-negative and below the top of the dtype (float32 cuts: any sign, need not be binary32 numbers; a "
+        "cut is compared as the C float the kernels receive); masks hold non-negative values",
+        "histories of a cached object: exhaustive for 2 calls on 1x2 (3 calls in thorough), a seeded sample of "
+        "6-call histories on 1x3 / 2x2; freshly allocated work arrays are modelled as one poison value",
+        "pairrow / pairscans: distinct omegas (numpy's argsort / argmin order among equal omegas is not specified); "
+        "pairscans matches omegas after % 360 without wrap-around at 0/360 (its own rule, not judged)",
         "sparse_frame accepts shapes up to 65534 x 65534 (its own assertion); 65535 columns only through the raw kernels",
         "the full product of 2x3 frames with 3 labels is covered by decomposition (all coordinate pairs x all "
         "label-pair sequences) plus random sampling, not enumerated",
@@ -394,6 +464,8 @@ ST_CASES = [
     {"prog": "sorted", "nnz": 3, "i": [0, 0, 0], "j": [0, 0, 1], "ret": -1},
     {"prog": "cd", "i": [2, 1, 2], "j": [1, 1, 1], "n": 3, "nt": 3,
      "cd": {"i": [1, 2, 2], "j": [1, 1, 1], "oi": [1, 2, 2], "oj": [1, 1, 1], "tmp": [0, 1, 3], "ret": 2}},
+    # a history of one overlaps_linear / overlaps_matrix object (SparseOverlaps_qh.cfg), second call grows it
+    json.loads('''{"prog": "hist", "nnzmax0": 1, "npkmax0": 1, "chain": true, "calls": [{"mat": {"res": [[1, 1, 1]], "nov": 1}, "ns": 1, "nf": 2, "f1": {"nnz": 1, "row": [0], "col": [0], "lab": [1], "n": 1}, "f2": {"nnz": 1, "row": [0], "col": [0], "lab": [1], "n": 1}, "nnzmax": 1, "npkmax": 1, "lin": {"nedge": 1, "rcl": [[1, 1, 1]], "none": false}}, {"mat": {"res": [[1, 1, 1]], "nov": 1}, "ns": 1, "nf": 2, "f1": {"nnz": 1, "row": [0], "col": [0], "lab": [1], "n": 1}, "f2": {"nnz": 2, "row": [0, 0], "col": [0, 1], "lab": [1, 1], "n": 1}, "nnzmax": 2, "npkmax": 1, "lin": {"nedge": 1, "rcl": [[1, 1, 1]], "none": false}}]}'''),
 ]
 
 
@@ -409,6 +481,17 @@ def _perturb(case):
         out.append(("intensity", c))
     elif case["prog"] == "sorted":
         out.append(("ret", dict(case, ret=1)))
+    elif case["prog"] == "hist":
+        for k in range(len(case["calls"])):
+            c = json.loads(json.dumps(case))
+            c["calls"][k]["lin"]["rcl"][0][2] += 1
+            out.append(("call %d lin count" % k, c))
+            c = json.loads(json.dumps(case))
+            c["calls"][k]["mat"]["res"][-1][1] += 1
+            out.append(("call %d mat label" % k, c))
+            c = json.loads(json.dumps(case))
+            c["calls"][k]["lin"]["nedge"] += 1
+            out.append(("call %d nedge" % k, c))
     elif case["prog"] == "cd":
         for fld in ("i", "j", "oi", "oj", "tmp", "ret"):
             c = json.loads(json.dumps(case))
